@@ -29,6 +29,7 @@ def run(rep, tier):
                        "AST def-use of replace()")
     rep.rule("R1", "codeType2Portable on host H builds the class for H and every co_* attribute is the native object's same-named attribute (line table: co_linetable on 3.10+)")
     rep.rule("R2", "to_native passes the fields in host H's types.CodeType positional order and is enabled exactly on the hosts whose selector picks the class")
+    rep.rule("R4", "freeze() (run by to_native on its copy) never returns early on a flag it assigns itself and never rewrites an integer-valued field (co_flags, counts, first line)")
     rep.rule("R3", "replace() copies with deepcopy(self), sets fields on the copy only, returns the copy")
     ref = ref_json("codetype.json")["hosts"]
     repo = get_repo()
@@ -161,5 +162,8 @@ def run(rep, tier):
         rets = [ast.unparse(n.value) for n in ast.walk(fn) if isinstance(n, ast.Return) and n.value is not None]
         rep.ob("R3", q, "returns-the-copy", rets == [copyvar], expected=copyvar, derived=rets)
     rep.floor("replace() implementations", nrep, 1)
+    # ---------------------------------------------------------------- R4 freeze(), which to_native() runs on its copy, is a pure normalisation
+    from .c19 import freeze_discipline
+    freeze_discipline(rep, repo, "R4")
     rep.assumptions = ["reference/codetype.json (types.CodeType signature and native attribute availability per host 3.8-3.13)",
                        "equality of the rebuilt native object is not evaluated; freeze()/check() are treated as identity on already-frozen fields"]
